@@ -1250,4 +1250,62 @@ theorem inv_reachSafe {thr : Nat} {db0 : List Nat} {s : State} (h : ReachSafe (i
   | step _ hs hf ih => exact ⟨(inv_step_asis ih.1 ih.2 hs hf).1, by rw [fire_cfg hf]; exact ih.2⟩
 
 
+
+
+/-- a run of background events (commit / notify / evictions) -/
+inductive BgSteps : State → State → Prop where
+  | refl (s : State) : BgSteps s s
+  | step {s s1 s2 : State} {e : Ev} {out : Option (List Nat)} :
+      isBackground e = true → fire s e = some (s1, out) → BgSteps s1 s2 → BgSteps s s2
+
+theorem bg_fields {s s' : State} {e out} (hb : isBackground e = true) (h : fire s e = some (s', out)) :
+    s'.truth = s.truth ∧ s'.thr = s.thr ∧ (s.entry = none → s'.entry = none) := by
+  cases e <;> simp [isBackground] at hb <;> simp only [fire] at h
+  case commit => split at h <;> simp at h; obtain ⟨rfl, _⟩ := h; exact ⟨rfl, rfl, id⟩
+  case notify => split at h <;> simp at h; obtain ⟨rfl, _⟩ := h; exact ⟨rfl, rfl, id⟩
+  case evictEntry => split at h <;> simp at h; obtain ⟨rfl, _⟩ := h; exact ⟨rfl, rfl, fun _ => rfl⟩
+  case evictLog => (repeat' split at h) <;> simp at h; obtain ⟨rfl, _⟩ := h; exact ⟨rfl, rfl, id⟩
+
+theorem bgSteps_inv {s s' : State} (h : BgSteps s s') (I : Inv s) (hc : s.cfg = repaired) :
+    Inv s' ∧ s'.cfg = repaired ∧ s'.truth = s.truth ∧ s'.thr = s.thr ∧ (s.entry = none → s'.entry = none) := by
+  induction h with
+  | refl s => exact ⟨I, hc, rfl, rfl, id⟩
+  | step hb hf _ ih =>
+      have I1 := (inv_step I hc hf).1
+      have hc1 := (fire_cfg hf).trans hc
+      obtain ⟨a, b, c⟩ := bg_fields hb hf
+      obtain ⟨i1, i2, i3, i4, i5⟩ := ih I1 hc1
+      exact ⟨i1, i2, i3.trans a, i4.trans b, fun h => i5 (c h)⟩
+
+theorem getInstall_eq_get {s0 s1 : State} (he0 : s0.entry = none) (he1 : s1.entry = none)
+    (hthr : s1.thr = s0.thr) (hcfg : s1.cfg = s0.cfg) :
+    (getInstall s1 (stagingSnapshot s0) s0.db).2 = (get s0).2 ∧
+    (getInstall s1 (stagingSnapshot s0) s0.db).1 = { s1 with entry := (get s0).1.entry } := by
+  unfold getInstall get
+  simp only [he0, he1, hthr, hcfg, fetchFrom, fetchEntry]
+  split <;> simp
+
+
+
+/-- snapshot BEFORE the store scan: whatever background commits / flushes / evictions fall between the
+scan and the install, the set that is returned and cached is the true set -/
+theorem get_across_background {s0 s1 : State} (I : Inv s0) (hc : s0.cfg = repaired) (he0 : s0.entry = none)
+    (hb : BgSteps s0 s1) :
+    (∀ x, x ∈ (getInstall s1 (stagingSnapshot s0) s0.db).2 ↔ x ∈ s1.truth) ∧
+    Inv (getInstall s1 (stagingSnapshot s0) s0.db).1 := by
+  obtain ⟨I1, hc1, htr, hthr, hent⟩ := bgSteps_inv hb I hc
+  obtain ⟨h1, h2⟩ := getInstall_eq_get he0 (hent he0) hthr (hc1.trans hc.symm)
+  obtain ⟨g1, g2⟩ := get_correct I hc
+  have gt := (get_fst_fields s0).2
+  refine ⟨fun x => by rw [h1, htr]; exact g1 x, ?_⟩
+  rw [h2]
+  obtain ⟨a1, a2, a3, a4, a5, a6, a7, a8, a9, a10, a11⟩ := I1
+  refine ⟨a1, a2, a3, a4, a5, a6, a7, ?_, a9, a10, a11⟩
+  intro S hS x
+  have := g2.k5 S hS x
+  rw [this, gt]
+  show x ∈ s0.truth ↔ x ∈ s1.truth
+  rw [htr]
+
+
 end QbiceVerif.SetCache
